@@ -306,8 +306,14 @@ func (ex *Exec) loadLeaves(st *State, t types.Type, get func(l leaf) *Term) Val 
 	v := unflat(t, ts)
 	switch x := v.(type) {
 	case *SliceV:
-		if x.Len.op != "bv" {
+		if x.Len.op == "select" && x.Off.op == "select" && (x.Cap == nil || x.Cap.op == "select") {
+			// read straight from memory: the three leaves belong together, the fact can travel with
+			// the length term
 			x.Len.AddFact(wfSliceFacts(x))
+		} else if x.Len.op != "bv" {
+			// a merged or derived value: after a merge the same length term can sit in slices whose
+			// capacity was computed on another path, so the fact stays path-local
+			ex.pendingAssume = append(ex.pendingAssume, wfSliceFacts(x))
 		}
 	case *IfaceV:
 		if x.Tag.op != "int" {
